@@ -497,6 +497,20 @@ def run(res, tier):
                 if len(res.drift) < 16:
                     res.drift.append("model predicts a round-trip failure (%s) that the real code does not show: %s"
                                      % (b["rt"]["why"], [x for x in j["setters"][1:]][:3]))
+    # the K=V style singles must have an observable effect on the bindings (else generate(b1) == generate(b2)
+    # could not see a value that is lost or cut at the wrong '=' on the way back)
+    dflt_sha = next((obs[jid]["a"].get("sha") for jid, (kind, b, j) in meta.items()
+                     if kind == "single" and j["setters"][1:] == [["layout_tests", True]]), None)
+    inert = []
+    for jid, (kind, b, j) in meta.items():
+        st = j["setters"][1:]
+        if kind == "single" and ((st[0][0] == "field_attribute" and st[0][1] == "Point") or
+                                 (st[0][0] == "override_abi" and "pfn" in st[0][2] and st[0][1] != "C")):
+            a = obs[jid].get("a", {})
+            if a.get("gen") == "ok" and a.get("sha") == dflt_sha:
+                inert.append(st[0])
+    if dflt_sha is None or inert:
+        raise C.ToolError("feature header does not make these options observable: %s" % inert[:4])
     res.add(behaviours={"single": len(singles), "pairs_enumerated": npairs, "pairs_run": len(pairs),
                         "sequences_generated": nseq_enum, "sequences_run": len(seqs), "configs_of_25": len(sims)}, replayed=kinds,
             model_predicted_failures_confirmed=confirmed, model_predicted_failures_not_reproduced=mispredicted,
